@@ -26,9 +26,18 @@ def run(prop, tier):
         "external image, card data, ROM image and overlay data are arbitrary byte arrays (z3 arrays behind a bytearray container contract)",
         "canonical form per the property: 24-bit wrap; >= 0x100000 is internal memory with offset & 0xFF, otherwise external & 0xFFFFF; the Python model has no RAM mirror window",
         "no keyboard overlay, no LCD controller attached, no emulator back-reference, tracing off (device windows are not memory and are outside these laws)",
-        "Rust MemoryImage / RuntimeBus: not decided",
+        "Rust MemoryImage: NOT proved (no Rust verifier); bounded law check on the compiled code (canonical form there: 24-bit wrap, 0x100000-0x1000FF internal, otherwise external & 0xFFFFF through the mirror window; addresses 0x100100-0xFFFFFF only in the wrap law); RuntimeBus not decided",
     ]
-    v.bounded = [dict(part="sc62015/core/src/memory.rs, lib.rs RuntimeBus", bound="not run", note="not decided (no Rust verifier)")]
+    from props import rust_standin as RS
+    vec = dict(memory=dict(seed=common.seed(), random_addresses=40 if tier == "quick" else 400))
+    res = RS.run(vec, ["memory"])
+    keep = (v.obligations, v.discharged)
+    v.absorb(RS.reports(res, vec, ["memory"]), known, expect_obligations=False)
+    v.obligations, v.discharged = keep
+    v.bounded = [RS.summarize(res, "memory", "MemoryImage::load/store on the compiled crate, 6 configurations (default, read-only range, ROM overlay, RAM overlay, RAM mirror, mirror+ROM+read-only): "
+                                             f"byte write/read-back/frame over 102 boundary addresses (both with and without high address bits) + {vec['memory']['random_addresses']} seeded random ones as written and as probed locations; "
+                                             "16/24-bit load and store vs. composition of byte accesses at the same addresses; 24-bit wrap for 200 random addresses per configuration; laws stated in the Rust test, no Python oracle"),
+                 dict(part="sc62015/core/src/lib.rs RuntimeBus (device windows)", bound="not run", note="not decided")]
     v.samples = [dict(obligation="frame:other-locations", statement="forall a,b (32 bit), v: canon(a) != canon(b) => read(b) after write(a,v) == read(b) before"),
                  dict(obligation="rw:read-back", statement="forall a, v: canon(a) is RAM in this configuration => read(a) after write(a, v) == v"),
                  dict(obligation="le:store3:external_memory", statement="write_bytes(3,a,x) and three write_byte calls leave identical images")]
